@@ -127,6 +127,20 @@ STD_OPTIONS = [
     ("train_on_empty=False", {"train_on_empty": False, "training_frequency": 20}, {}, False),
     ("cooldown=5", {"cooldown": 5}, {}, False),
     ("memory=100", {"memory": 100}, {}, False),
+    ("memory=20", {"memory": 20}, {}, False),
+    ("maximum_uninformed=0", {"maximum_uninformed": 0}, {}, False),
+    ("maximum_uninformed=30", {"maximum_uninformed": 30}, {}, False),
+    ("max_iteration=None,stopping=2.0", {"max_iteration": None, "stopping": 2.0}, {}, False),
+    ("poolsize=200", {"poolsize": 200}, {}, False),
+    ("save_training_data=True", {"save_training_data": True}, {}, False),
+    ("flow_class=flowproposal", {"flow_class": "flowproposal"}, {}, False),
+    ("flow_proposal_class=clusteringflowproposal,max_n_clusters=3", {"flow_proposal_class": "clusteringflowproposal", "max_n_clusters": 3}, {}, False),
+    ("checkpointing=True", {"checkpointing": True, "checkpoint_on_training": True, "checkpoint_on_iteration": True, "checkpoint_interval": 25}, {}, False),
+    ("save=True,result_extension=json", {"result_extension": "json"}, {"save": True}, False),
+    ("save=True,result_extension=hdf5", {"result_extension": "hdf5"}, {"save": True}, False),
+    ("allow_multi_valued_likelihood=True", {"allow_multi_valued_likelihood": True}, {}, False),
+    ("n_pool=2,parallelise_prior=True", {"n_pool": 2, "parallelise_prior": True}, {}, False),
+    ("uninformed_proposal_kwargs=poolsize", {"uninformed_proposal_kwargs": {"poolsize": 30}}, {}, False),
     ("acceptance_threshold=0.5", {"acceptance_threshold": 0.5}, {}, False),
     ("maximum_uninformed=None", {"maximum_uninformed": None}, {}, False),
     ("maximum_uninformed=False", {"maximum_uninformed": False}, {}, True),
@@ -159,6 +173,15 @@ INS_OPTIONS = [
     ("strict_threshold=True", {"strict_threshold": True}, {}, True),
     ("draw_iid_live=False", {"draw_iid_live": False}, {}, True),
     ("n_update=10", {"n_update": 10}, {}, False),
+    ("n_update=10,max_iteration=None", {"n_update": 10, "max_iteration": None}, {}, False),
+    ("max_samples=61,max_iteration=None", {"max_samples": 61, "max_iteration": None}, {}, False),
+    ("max_iteration=None", {"max_iteration": None}, {}, False),
+    # known not to terminate without an iteration cap: thorough tier only, short wall cap
+    ("nlive=200,n_update=20,max_iteration=None", {"nlive": 200, "min_samples": 50, "n_update": 20, "max_iteration": None}, {}, "thorough"),
+    ("max_samples=61,min_samples=60,max_iteration=None", {"max_samples": 61, "min_samples": 60, "max_iteration": None}, {}, "thorough"),
+    ("checkpointing=True", {"checkpointing": True, "checkpoint_on_iteration": True, "checkpoint_interval": 1, "save_existing_checkpoint": True}, {}, False),
+    ("save=True,result_extension=json", {"result_extension": "json"}, {"save": True}, False),
+    ("plot_training=True", {"plot": True, "plot_training": True}, {}, False),
     ("stopping_criterion=[ratio,ess],check_criteria=all",
      {"stopping_criterion": ["ratio", "ess"], "tolerance": [0.0, 50.0], "check_criteria": "all"}, {}, True),
     ("tolerance=100", {"tolerance": 100.0}, {}, False),
@@ -298,6 +321,31 @@ POP_AXES = [
 ]
 
 
+# training schedule / reset / uninformed-phase options of the standard sampler (both tiers, singles + all pairs)
+SCHED_AXES = [
+    ("memory", [{"memory": 20}, {"memory": 100}]),
+    ("maximum_uninformed", [{"maximum_uninformed": False}, {"maximum_uninformed": 0}]),
+    ("training_frequency", [{"training_frequency": 20}]),
+    ("reset", [{"reset_flow": 1}, {"reset_weights": 1, "reset_permutations": 1}]),
+    ("cooldown", [{"cooldown": 5}]),
+    ("acceptance", [{"retrain_acceptance": False}, {"acceptance_threshold": 0.5}]),
+    ("uninformed", [{"analytic_priors": True}]),
+    ("checkpointing", [{"checkpointing": True, "checkpoint_on_training": True, "checkpoint_on_iteration": True,
+                        "checkpoint_interval": 25}]),
+]
+# level-update options of the importance sampler (both tiers, singles + all pairs)
+INS_LEVEL_AXES = [
+    ("n_update", [{"n_update": 10}]),
+    ("max_samples", [{"max_samples": 61}, {"max_samples": 100}]),
+    ("draw_constant", [{"draw_constant": False}]),
+    ("replace_all", [{"replace_all": True}]),
+    ("strict_threshold", [{"strict_threshold": True}]),
+    ("draw_iid_live", [{"draw_iid_live": False}]),
+    ("min_remove", [{"min_remove": 5}]),
+    ("checkpointing", [{"checkpointing": True, "checkpoint_on_iteration": True, "checkpoint_interval": 1}]),
+]
+
+
 def mini_array(n, sampler, axes, tier, seed0, model, seeds_for_singles=1):
     out = []
     suffix = "" if model == "gauss2" else f"@{model}"
@@ -404,6 +452,7 @@ def build_jobs(chk, alias_tbl=None):
                 j["post_calls"] = calls
                 jobs.append(j)
         jobs += mini_array(n, sampler, TRAIN_AXES, tier, seed0, "gauss2")
+        jobs += mini_array(n, sampler, SCHED_AXES if sampler == "std" else INS_LEVEL_AXES, tier, seed0, "gauss2")
         jobs.append(mkjob(f"j{next(n)}", sampler, "<base>@corner2", {}, {}, tier, seed0, model="corner2"))
         if sampler == "std":
             jobs += mini_array(n, "std", POP_AXES, tier, seed0, "corner2", seeds_for_singles=2 if tier == "quick" else 3)
@@ -735,11 +784,12 @@ def validators_static(chk):
         chk.translator[f"pipeline:{sampler}"] = f"translated ({len(ev)} events): " + " ".join(f"{k}:{n}" for k, n in ev)[:600]
         evl = cL(ev_lit(k, n) for k, n in ev)
         req_ok, req_known = [], []
-        for (ka, na, kb, nb) in REQ[sampler]:
+        txt = HDR + "".join(f"Eval vm_compute in (pipeline_ok [({ev_lit(ka, na)}, {ev_lit(kb, nb)})] {evl}).\n"
+                            for (ka, na, kb, nb) in REQ[sampler])
+        ok, evals, err = chk.coq_run(f"pipe_{sampler}", txt, timeout=120)
+        for i, (ka, na, kb, nb) in enumerate(REQ[sampler]):
             key = f"C20:late-validation:{sampler}:{na}"
-            txt = HDR + f"Eval vm_compute in (pipeline_ok [({ev_lit(ka, na)}, {ev_lit(kb, nb)})] {evl}).\n"
-            ok, evals, err = chk.coq_run(f"pipe_{sampler}_{na}_{kb}", txt, timeout=120)
-            holds = ok and evals and evals[0].strip() == "true"
+            holds = ok and len(evals) == len(REQ[sampler]) and evals[i].strip() == "true"
             if holds:
                 req_ok.append((ka, na, kb, nb))
             elif kb == "S" and is_known(chk, key):
@@ -1001,7 +1051,7 @@ def corr(chk, name, hdr, fn, lits, what, ty=None):
 # =====================================================================================================
 def run_jobs(chk, jobs, timeout):
     outdir = os.path.join(chk.build, "runs")
-    inp = json.dumps({"outdir": outdir, "parallel": int(os.environ.get("C20_PARALLEL", "12")), "jobs": jobs})
+    inp = json.dumps({"outdir": outdir, "parallel": int(os.environ.get("C20_PARALLEL", "14")), "jobs": jobs})
     rc, out, err = chk.child("c20_child.py", ["runs"], timeout=timeout, inp=inp)
     if rc != 0:
         return None, err[-2000:]
